@@ -391,6 +391,15 @@ func (w *World) trSpecCall(e *SExpr, env *SpecEnv) *Val {
 		for k, v := range env.bound {
 			carry[k] = v
 		}
+		if _, nestedProto := env.names["oseen"]; nestedProto && env.old.st != nil {
+			// outer protocol ghosts of the enclosing function at its entry
+			if v, ok := env.old.st.ghost["seen"]; ok {
+				carry["oseen"] = v
+			}
+			if v, ok := env.old.st.ghost["stopped"]; ok {
+				carry["ostopped"] = v
+			}
+		}
 		if len(carry) > 0 {
 			return w.trSpec(args[0], env.old.with(carry))
 		}
